@@ -28,6 +28,7 @@ import (
 	"github.com/hydraide/hydraide/app/core/hydra/swamp/chronicler/v2"
 	"github.com/hydraide/hydraide/app/core/hydra/swamp/metadata"
 	"github.com/hydraide/hydraide/app/core/hydra/swamp/treasure"
+	"github.com/hydraide/hydraide/app/verifhook"
 )
 
 // Config holds the migration configuration
@@ -313,6 +314,10 @@ func (m *Migrator) migrateSwamp(folderPath string) {
 	if err != nil {
 		m.recordFailure(folderPath, err.Error(), "write")
 		return
+	}
+
+	if verifhook.Enabled {
+		verifhook.Point("migrate.written", hydFilePath)
 	}
 
 	// Step 3: Verify (if enabled)
